@@ -40,6 +40,13 @@ func c14Normalise(s string) string {
 type c14SelCase struct {
 	S   string `json:"s"`
 	Hex string `json:"hex,omitempty"` // the text in hex, for texts that are not valid UTF-8 (S is then only descriptive)
+	Big int    `json:"big,omitempty"` // 1 + index of the big-integer form: the accepted selector is also resolved on [0..12]
+}
+
+// c14BigForms: selector shapes around one integer v that is larger than any list; want = what resolving the
+// shape on the 13-element list [0..12] gives if the text is accepted ("all", "none", "error", "tail" = [1..12], "skip")
+var c14BigForms = []struct{ Form, Want string }{
+	{".[%s]", "error"}, {".[-%s]", "error"}, {".[0:%s]", "all"}, {".[%s:]", "none"}, {".[-%s:]", "all"}, {".[1:-%s]", "none"}, {".[%s:%s]", "none"}, {".[1:%s]", "tail"}, {".[0%s]", "error"},
 }
 
 // c14ByteNames: quoted field names made of bytes outside ASCII - not UTF-8, ending inside a character, the
@@ -90,7 +97,7 @@ func c14SelectorSub() *engine.Sub {
 	return &engine.Sub{
 		Name:   "selector-text",
 		Repeat: true,
-		Rule:   `every string over {. [ ] " ? : - 0 1 a _ \ * space} up to the length bound offered to selector.Parse, plus 12 quoted field names made of bytes outside ASCII (not UTF-8, ending inside a character, U+FFFD, composed / decomposed spellings) in 6 selector shapes; for every accepted string: printing reproduces the text (up to '?' after an identity dot), the printed text parses to the same segments with identical Select results on 33 values, and every segment re-parsed alone has the same meaning; non-trivial = accepted strings`,
+		Rule:   `every string over {. [ ] " ? : - 0 1 a _ \ * space} up to the length bound offered to selector.Parse, plus 12 quoted field names made of bytes outside ASCII (not UTF-8, ending inside a character, U+FFFD, composed / decomposed spellings) in 6 selector shapes, and 19 integers at and beyond 2^31, 2^32, 2^53, 2^63, 2^64, 2^65 and 2^128 (also n + 2^64 for small n) as index and slice bounds in 9 shapes; for every accepted string: printing reproduces the text (up to '?' after an identity dot), the printed text parses to the same segments with identical Select results on 33 values, and every segment re-parsed alone has the same meaning; non-trivial = accepted strings`,
 		Bound: func(t string) string {
 			return fmt.Sprintf("all strings of length <=%d over 14 symbols", tierN(t, 5, 8))
 		},
@@ -106,6 +113,17 @@ func c14SelectorSub() *engine.Sub {
 				}
 				return emit(&c14SelCase{S: "." + s})
 			})
+			// integers at and beyond every machine boundary as index and slice bounds (a bound that is accepted is the
+			// bound that is printed; one that does not fit is rejected, never wrapped or clamped silently)
+			for _, v := range []string{"9007199254740991", "9007199254740992", "2147483647", "2147483648", "4294967295", "4294967296", "4294967298",
+				"9223372036854775807", "9223372036854775808", "18446744073709551615", "18446744073709551616", "18446744073709551618", "18446744073709551617",
+				"27670116110564327423", "36893488147419103232", "36893488147419103234", "100000000000000000000", "340282366920938463463374607431768211458", "99999999999999999999999999999999999999999"} {
+				for fi, form := range c14BigForms {
+					if !emit(&c14SelCase{S: strings.ReplaceAll(form.Form, "%s", v), Big: fi + 1}) {
+						return
+					}
+				}
+			}
 			for _, name := range c14ByteNames {
 				for _, form := range []string{`.["%s"]`, `.a["%s"]`, `.["%s"]?`, `.["%s"][0]`, `.["%s"]["%s"]`, `.["a"]["%s"]?[1:]`} {
 					t := strings.ReplaceAll(form, "%s", name)
@@ -145,6 +163,33 @@ func c14SelectorSub() *engine.Sub {
 				return
 			}
 			ctx.Outcome("accepted")
+			if cs.Big > 0 {
+				// an accepted bound means what its digits say: it is larger than the list
+				var list datamodel.Node
+				for _, d := range data {
+					if d.Name == "[0..12]" {
+						list = d.Node
+					}
+				}
+				got, gerr := sel.Select(list)
+				ctx.Eval(1)
+				want := c14BigForms[cs.Big-1].Want
+				ok := false
+				switch want {
+				case "error":
+					ok = gerr != nil
+				case "all":
+					ok = gerr == nil && got != nil && got.Kind() == datamodel.Kind_List && got.Length() == 13
+				case "none":
+					ok = gerr == nil && got != nil && got.Kind() == datamodel.Kind_List && got.Length() == 0
+				case "tail":
+					ok = gerr == nil && got != nil && got.Kind() == datamodel.Kind_List && got.Length() == 12
+				}
+				if !ok {
+					ctx.Failf(cs, "selector/bound-not-taken-at-face-value", "Parse(%q) accepted, but on the list [0..12] it resolves to %s (error %v) where a bound of that size gives %q", cs.S, nodeJSON(got), gerr, want)
+					return
+				}
+			}
 			sel2, err := selector.Parse(printed)
 			ctx.Eval(1)
 			if err != nil {
@@ -201,7 +246,9 @@ func (c *c14PolCase) Weight() int { return len(c.JSON) }
 
 func c14Args(depth int) []string {
 	// argument kinds: string (selector-like, pattern-like, operator-like), list, int, map, null
-	base := []string{`"."`, `".a"`, `".a?"`, `".?"`, `"a*"`, `"\\"`, `"\\**"`, `"a**b"`, `"\\\\*"`, `"x"`, `1`, `null`, `{}`, `[]`, `true`}
+	base := []string{`"."`, `".a"`, `".a?"`, `".?"`, `"a*"`, `"\\"`, `"\\**"`, `"a**b"`, `"\\\\*"`, `"x"`, `1`, `null`, `{}`, `[]`, `true`,
+		// DAG-JSON forms of bytes and links, and maps that merely look like them
+		`{"/":{"bytes":"AQI"}}`, `{"/":"bafyreigdyrzt5sfp7udm7hu76uh7y26nf3efuylqabf3oclgtqy55fbzdi"}`, `{"/":{"bytes":""}}`, `{"x":{"/":{"bytes":"AQI"}}}`, `[{"/":{"bytes":"/w"}}]`, `1.5`}
 	if depth > 0 {
 		base = append(base, c14Statements(depth-1)...)
 		// a list of statements (operand of and/or)
